@@ -8,6 +8,7 @@ mod minimize;
 mod oal;
 mod props;
 mod refsem;
+mod rewrite;
 mod tape;
 mod validate;
 
